@@ -127,7 +127,8 @@ def generate(rng: random.Random, cons: dict) -> dict:
         g = nx.DiGraph()
         g.add_nodes_from(ids)
         g.add_edges_from(edges)
-        mul, off = rng.choice([(1, 0), (3, 2), (7, 10), (37, 200)])
+        # (1, -1): ids start at 0, a legal value that "if id:" style code mishandles
+        mul, off = rng.choice([(1, 0), (3, 2), (7, 10), (37, 200), (1, -1)])
         segs = sorted(models.segments(g), key=lambda b: min(b))
         comps = sorted(models.components(g), key=lambda b: min(b))
         perm_s = list(range(1, len(segs) + 1))
@@ -156,6 +157,9 @@ def generate(rng: random.Random, cons: dict) -> dict:
                     enable.append(k)
     w["enable"] = enable
     w["subscribers"] = rng.choice([0, 1, 1, 2])
+    # a second, independently edited solution in the same process (state kept on a class
+    # instead of the instance shows up as cross-talk between the two)
+    w["sibling"] = rng.random() < 0.3
     return w
 
 
